@@ -733,6 +733,10 @@ def run(case, res):
         if si % 4 == 2:
             # the user switched debug mode on half way: only the wires made from here on carry a
             # recorded call stack
+            # (one wire declared and left unconnected before the switch, so that the offending
+            # wires of one report are of both kinds)
+            with pyrtl.set_working_block(bb.block, no_sanity_check=True):
+                pyrtl.WireVector(3, 'declared_early_%d' % si)
             pyrtl.set_debug_mode(True)
             res.probes.hit('debug_mode_switched_on_mid_build')
         try:
